@@ -8,11 +8,15 @@ import (
 	"verif/sim/core"
 	"verif/sim/simdb"
 
+	"github.com/pokt-network/pocket-core/codec"
+	codecTypes "github.com/pokt-network/pocket-core/codec/types"
 	"github.com/pokt-network/pocket-core/store/iavl"
 	"github.com/pokt-network/pocket-core/store/rootmulti"
 	"github.com/pokt-network/pocket-core/store/types"
+	amino "github.com/tendermint/go-amino"
 	abci "github.com/tendermint/tendermint/abci/types"
 	"github.com/tendermint/tendermint/crypto/merkle"
+	"github.com/tendermint/tendermint/crypto/tmhash"
 )
 
 // ---------------------------------------------------------------- C05 proofs
@@ -39,6 +43,45 @@ func flip(b []byte) []byte {
 	}
 	c[len(c)/2] ^= 0x01
 	return c
+}
+
+// leafPreimage is the byte string a leaf (key, hash of value, version) is hashed from. A store
+// value is any byte string, so a client can store exactly these bytes under a key of its own.
+func leafPreimage(key, valueHash []byte, version int64) []byte {
+	buf := new(bytes.Buffer)
+	_ = amino.EncodeInt8(buf, 0)
+	_ = amino.EncodeVarint(buf, 1)
+	_ = amino.EncodeVarint(buf, version)
+	_ = amino.EncodeByteSlice(buf, key)
+	_ = amino.EncodeByteSlice(buf, valueHash)
+	return buf.Bytes()
+}
+
+// forgedValueFor is the value the carrier of a made-up leaf for key claims.
+func forgedValueFor(key []byte) []byte { return append([]byte("forged-"), key...) }
+
+// carrierValue is a store value that spells out the pre-image of a made-up leaf for key.
+func carrierValue(key []byte) []byte { return leafPreimage(key, tmhash.Sum(forgedValueFor(key)), 1) }
+
+// parseCarrier recognises a carrierValue and returns the key of the made-up leaf.
+func parseCarrier(v []byte) ([]byte, bool) {
+	if len(v) < 4 || v[0] != 0 || v[1] != 2 {
+		return nil, false
+	}
+	rest := v[2:]
+	ver, n, err := amino.DecodeVarint(rest)
+	if err != nil || ver != 1 {
+		return nil, false
+	}
+	rest = rest[n:]
+	k, n, err := amino.DecodeByteSlice(rest)
+	if err != nil {
+		return nil, false
+	}
+	if !bytes.Equal(v, carrierValue(k)) {
+		return nil, false
+	}
+	return k, true
 }
 
 // mutateRange returns copies of rp, each with exactly one node field altered.
@@ -228,6 +271,12 @@ func (s *multiSim) prove(st *multiStep) {
 			nmut++
 		}
 	}
+	// forged proofs assembled from genuine pieces (the prover answers every query honestly; the
+	// forger recombines what it was given)
+	if rp != nil && present && len(res.Proof.Ops) > 1 {
+		nmut += s.forgeAbsence(st, be, name, key, root, prt, res.Proof.Ops[1])
+		nmut += s.forgeExistence(st, be, name, key, want, rp, root, prt, res.Proof.Ops[1])
+	}
 	// op 1: the multistore op — store names and hashes (the version of a store-info is not part
 	// of the hash by design and is not altered)
 	if len(res.Proof.Ops) > 1 {
@@ -273,6 +322,194 @@ func (s *multiSim) prove(st *multiStep) {
 		}
 	}
 	s.res.ProbeN("proof_mutations_checked", nmut)
+}
+
+// forgeAbsence tries to prove a stored key absent: the left path and leaf of a smaller stored key A
+// and, as the "inner" path to the next leaf, the lower part of the path to a larger stored key C
+// (nodes that carry LEFT hashes), so that A and C pass as neighbours over the keys between them.
+func (s *multiSim) forgeAbsence(st *multiStep, be *bookEntry, name string, key, root []byte, prt *merkle.ProofRuntime, msOp merkle.ProofOp) int {
+	pairs := sortedPairs(be.stores[st.S])
+	ti := -1
+	for i, p := range pairs {
+		if bytes.Equal(p.k, key) {
+			ti = i
+		}
+	}
+	if ti <= 0 || ti >= len(pairs)-1 {
+		return 0
+	}
+	rangeOf := func(k []byte) *iavl.RangeProof {
+		q := s.nodes[0].rs.Query(abci.RequestQuery{Path: "/" + name + "/key", Data: k, Height: st.Ver, Prove: true})
+		if q.Proof == nil || len(q.Proof.Ops) == 0 {
+			return nil
+		}
+		if dec, err := iavl.ValueOpDecoder(q.Proof.Ops[0]); err == nil {
+			return dec.(iavl.ValueOp).Proof
+		}
+		return nil
+	}
+	tried := 0
+	for ai := ti - 1; ai >= 0 && tried < 24; ai-- {
+		pa := rangeOf(pairs[ai].k)
+		if pa == nil {
+			continue
+		}
+		i := len(pa.LeftPath) - 1
+		for i >= 0 && len(pa.LeftPath[i].Right) == 0 {
+			i--
+		}
+		if i < 0 {
+			continue
+		}
+		for ci := ti + 1; ci < len(pairs) && tried < 24; ci++ {
+			pc := rangeOf(pairs[ci].k)
+			if pc == nil || i >= len(pc.LeftPath) || len(pc.LeftPath[i].Left) == 0 {
+				continue
+			}
+			same := true
+			for j := 0; j < i; j++ {
+				x, y := pa.LeftPath[j], pc.LeftPath[j]
+				same = same && bytes.Equal(x.Left, y.Left) && bytes.Equal(x.Right, y.Right)
+			}
+			if !same {
+				continue
+			}
+			tried++
+			fake := &iavl.RangeProof{LeftPath: pa.LeftPath, InnerNodes: []iavl.PathToLeaf{pc.LeftPath[i+1:]}, Leaves: []iavl.ProofLeafNode{pa.Leaves[0], pc.Leaves[0]}}
+			p := &merkle.Proof{Ops: []merkle.ProofOp{iavl.NewAbsenceOp(key, fake).ProofOp(), msOp}}
+			s.res.Probe("proof_forged_absence_offered")
+			if prt.VerifyAbsence(p, root, keyPath(name, key)) == nil {
+				s.violate("forged-proof-accepted", "absence-of-stored-key/non-adjacent-leaves", fmt.Sprintf("store %s key %x is stored at height %d, yet an absence proof put together from the genuine existence proofs of %x and %x (which are not neighbours) verifies against the committed root", name, key, st.Ver, pairs[ai].k, pairs[ci].k))
+				return tried
+			}
+		}
+	}
+	return tried
+}
+
+// forgeExistence tries to prove a key that is not stored: when the stored value of key spells out
+// the pre-image of a made-up leaf, the stored leaf is offered as a path node (height 0, size 1,
+// left = its key) above the made-up leaf.
+func (s *multiSim) forgeExistence(st *multiStep, be *bookEntry, name string, key, value []byte, rp *iavl.RangeProof, root []byte, prt *merkle.ProofRuntime, msOp merkle.ProofOp) int {
+	fk, ok := parseCarrier(value)
+	if !ok || len(rp.Leaves) != 1 {
+		return 0
+	}
+	if _, stored := be.stores[st.S][string(fk)]; stored {
+		return 0
+	}
+	path := append(iavl.PathToLeaf{}, rp.LeftPath...)
+	path = append(path, iavl.ProofInnerNode{Height: 0, Size: 1, Version: rp.Leaves[0].Version, Left: key})
+	fake := &iavl.RangeProof{LeftPath: path, Leaves: []iavl.ProofLeafNode{{Key: fk, ValueHash: tmhash.Sum(forgedValueFor(fk)), Version: 1}}}
+	p := &merkle.Proof{Ops: []merkle.ProofOp{iavl.NewValueOp(fk, fake).ProofOp(), msOp}}
+	s.res.Probe("proof_forged_existence_offered")
+	if prt.VerifyValue(p, root, keyPath(name, fk), forgedValueFor(fk)) == nil {
+		s.violate("forged-proof-accepted", "existence-of-absent-key/leaf-offered-as-path-node", fmt.Sprintf("store %s key %x is not stored at height %d, yet an existence proof for value %x verifies against the committed root: the stored leaf %x, whose value spells out a leaf for %x, was offered as a path node", name, fk, st.Ver, forgedValueFor(fk), key, fk))
+	}
+	return 1
+}
+
+// ---------------------------------------------------------------- C09 store queries at a height
+
+var queryCdc = codec.NewCodec(codecTypes.NewInterfaceRegistry())
+
+// queryAt asks the multistore's query interface (the path behind the node's /store/<name>/...
+// ABCI queries) for keys and for a key prefix at a committed height and compares the answers with
+// what was committed at that height. The working tree may hold uncommitted writes at this point.
+func (s *multiSim) queryAt(st *multiStep) {
+	be := s.book[st.Ver]
+	if be == nil {
+		return
+	}
+	rs := s.nodes[0].rs
+	for i, sk := range s.keys {
+		if i >= len(be.stores) {
+			break
+		}
+		m := be.stores[i]
+		for _, kh := range st.Keys {
+			k := core.UnHex(kh)
+			if len(k) == 0 {
+				continue
+			}
+			q := rs.Query(abci.RequestQuery{Path: "/" + sk.Name() + "/key", Data: k, Height: st.Ver})
+			want, present := m[string(k)]
+			if present != (q.Value != nil) || !bytes.Equal(q.Value, want) {
+				s.violate("historical-query", "key", fmt.Sprintf("store %s key %x queried at height %d (latest %d, %d uncommitted writes): got %x, committed %x (present=%v)", sk.Name(), k, st.Ver, s.latest, len(s.pending), q.Value, want, present))
+				return
+			}
+			// every key under the first byte of the key
+			pfx := k[:1]
+			q = rs.Query(abci.RequestQuery{Path: "/" + sk.Name() + "/subspace", Data: pfx, Height: st.Ver})
+			var got []types.KVPair
+			if len(q.Value) > 0 {
+				if err := queryCdc.LegacyUnmarshalBinaryLengthPrefixed(q.Value, &got); err != nil {
+					s.violate("historical-query", "subspace-undecodable", fmt.Sprintf("store %s prefix %x at height %d: %v", sk.Name(), pfx, st.Ver, err))
+					return
+				}
+			}
+			var wantKV []kvPair
+			for _, p := range sortedPairs(m) {
+				if bytes.HasPrefix(p.k, pfx) {
+					wantKV = append(wantKV, p)
+				}
+			}
+			same := len(got) == len(wantKV)
+			for j := 0; same && j < len(got); j++ {
+				same = bytes.Equal(got[j].Key, wantKV[j].k) && bytes.Equal(got[j].Value, wantKV[j].v)
+			}
+			if !same {
+				// the recorded finding: the answer is the working tree's (height ignored, uncommitted
+				// writes included); any other wrong answer is a different violation
+				subject := "subspace"
+				var wk []kvPair
+				for _, p := range sortedPairs(s.work[i]) {
+					if bytes.HasPrefix(p.k, pfx) {
+						wk = append(wk, p)
+					}
+				}
+				if len(got) == len(wk) {
+					eq := true
+					for j := range got {
+						eq = eq && bytes.Equal(got[j].Key, wk[j].k) && bytes.Equal(got[j].Value, wk[j].v)
+					}
+					if eq {
+						subject = "subspace-answered-from-working-tree"
+					}
+				}
+				s.violate("historical-query", subject, fmt.Sprintf("store %s prefix %x queried at height %d (latest %d, %d uncommitted writes): got %d pairs %s, committed %d pairs %s", sk.Name(), pfx, st.Ver, s.latest, len(s.pending), len(got), renderKV(got), len(wantKV), renderPairs(wantKV)))
+				return
+			}
+			s.res.Probe("historical_store_query_checked")
+			if st.Ver < s.latest || len(s.pending) > 0 {
+				s.res.Probe("historical_store_query_behind_working_tree")
+			}
+		}
+	}
+}
+
+func renderKV(kv []types.KVPair) string {
+	var b strings.Builder
+	for i, p := range kv {
+		if i == 6 {
+			b.WriteString("…")
+			break
+		}
+		fmt.Fprintf(&b, "%x=%x ", p.Key, p.Value)
+	}
+	return "[" + strings.TrimSpace(b.String()) + "]"
+}
+
+func renderPairs(kv []kvPair) string {
+	var b strings.Builder
+	for i, p := range kv {
+		if i == 6 {
+			b.WriteString("…")
+			break
+		}
+		fmt.Fprintf(&b, "%x=%x ", p.k, p.v)
+	}
+	return "[" + strings.TrimSpace(b.String()) + "]"
 }
 
 // ---------------------------------------------------------------- C08 rollback
